@@ -3,8 +3,8 @@ ENTRY = dict(
     rule="n random 32-byte seeds (plus a fixed 2-seed corpus holding the two F-09 witnesses) x {DefaultWeights (id.Weights nil, "
          "every 7th an explicit copy), all-0, all-1, random weights (uniform in [-0.2,1.2], {0,1}, and float64 boundary values "
          "incl. NaN/+-Inf/1e308)} with the variant rotating over Randomized/-ALPN/-NoALPN, 4 server names, 6 NextProtos settings; "
-         "4 non-randomized ids (error path); the cipherSuites/defaultCipherSuitesTLS13 tables, the constants and DefaultWeights "
-         "as drift cases; n/4 direct calls of removeRandomCiphers/removeRC4Ciphers (random lists, boundary weights) and n/16 of "
+         "4 non-randomized ids (error path); the cipherSuites/defaultCipherSuitesTLS13 tables, the constants, DefaultWeights and the "
+         "sequence of id.Weights.X references / FlipWeightedCoin calls in the source of generateRandomizedSpec (coin table) as drift cases; n/4 direct calls of removeRandomCiphers/removeRC4Ciphers (random lists, boundary weights) and n/16 of "
          "shuffledCiphers. generateRandomizedSpec is called twice per input (determinism oracle); the SHAKE256 stream and the "
          "HKDF-salted ALPS stream are recomputed with x/crypto and the model must reproduce the spec exactly (suites, extension "
          "order, every parameter). Distinct by (id, seed, weights, serverName, NextProtos); non-trivial when a spec was produced "
@@ -15,12 +15,15 @@ ENTRY = dict(
                   "(Model/Prng.v) validated against Go on every case, overflow to +-Inf modelled explicitly",
                   "rendering of ClientHelloSpec extensions into the abstract spec (runner observe())"],
     assumes=["streams long enough / rejection loops end within the fuel (16 redraws): model returns Err 99 otherwise, theorems are about Ok results",
-             "sort.Sort modelled as insertion sort on Less: the random tags are a permutation, so the order is total and the result unique "
-             "(not proved; the sorted output is compared with the code's on every case)",
              "weight-1 statements exclude streams with an all-zero 63-bit draw (nz), probability 2^-63 per draw",
-             "Seed == nil (fresh crypto/rand seed) is outside the property; Weights == nil is DefaultWeights (checked)"],
+             "Seed == nil (fresh crypto/rand seed) is outside the property; Weights == nil is DefaultWeights (checked)",
+             "sort.Sort returns a permutation of its input with no later element Less than an earlier one (premise of C09_sort_unique; "
+             "the model's list is then the only possible result, and it is compared with the code's on every case)"],
     level_text="Proof for every byte stream (superset of all seeds), every weights vector and every suite table: suite order, TLS 1.3 rules, "
-               "ALPS=>ALPN, first suite kept, weight-0/weight-1 corners for version/ALPN/padding/status/SCT/reneg/EMS/ALPS/cipher removal "
-               "(partial: sigalg and curve coins only observed), key-share consistency refuted with real-seed witnesses and proved "
-               "under the weight conditions that pin one of the two independent coins; determinism = purity + observed twice per input.",
+               "ALPS=>ALPN, first suite kept; the weight-0/weight-1 corners for EVERY FlipWeightedCoin site via the 19-row table `coins` "
+               "(C09_coins: weight<=0 => feature present iff forced by a TLS 1.3 rule / the -ALPN id; weight>=1 and no zero draw => present "
+               "whenever the coin is flipped), the table being tied to the source text of generateRandomizedSpec by the CCoins case; "
+               "math/rand Perm is a permutation for every stream, hence the cipher sort has a unique result independent of the sort "
+               "algorithm (C09_sort_unique); key-share consistency refuted with real-seed witnesses and proved under the weight "
+               "conditions that pin one of the two independent coins; determinism = purity + observed twice per input.",
 )
